@@ -55,14 +55,19 @@ def gen_success_scenario(rng, n_ops=None, small=False):
 def gen_fail_scenario(rng, kinds=('ValueError', 'Custom', 'Attr', 'KeyError', 'SystemExit')):
     sc = gen_success_scenario(rng, n_ops=1)
     op = sc['ops'][0]
-    if op.get('input') == 'nd':
+    numpy_in = op.get('input') == 'nd' and rng.random() < .6
+    if op.get('input') == 'nd' and not numpy_in:
         op['input'] = 'list'
     if op['n'] < 2:
         op['n'] = rng.randint(2, 20)
     if op.get('iterable_len') is not None:
         op['iterable_len'] = op['n']
     r = rng.random()
-    if r < .7:
+    if numpy_in:
+        # array input: tasks are array chunks, identified by the index of their first row
+        op['fail'] = {'at': [0], 'exc': rng.choice(kinds)}
+        op.pop('iterable_len', None)
+    elif r < .7:
         k = rng.choice([1, 1, 2])
         op['fail'] = {'at': sorted(rng.sample(range(op['n']), min(k, op['n']))), 'exc': rng.choice(kinds)}
     elif r < .85:
